@@ -774,6 +774,26 @@ def rule_cursor(rep, d, fns):
                     problems.append("a %d-byte load at cursor%+d reaches past the %d-byte block" % (sz, off, w))
             (rep.violates if problems else rep.holds)(R, "murmur_hash<8>", "block loop", where=d.where(loop),
                                                       detail="; ".join(problems) if problems else "end = start + (length & ~%d); loads %s; cursor +%d" % (w - 1, [(p_.get("", 0), sz) for _, p_, sz in snaps], step))
+    # the masks applied to the length are folded with the conversions clang recorded: `~0x7u` is a 32-bit mask once widened to size_t
+    from .. import ceval
+    lname = ps[1]
+    for n_ in ir.walk_expr(ir.body(fn)):
+        if n_.get("kind") == "BinaryOperator" and n_.get("opcode") == "&":
+            sides = ir.ekids(n_)
+            for a_, b_ in ((sides[0], sides[1]), (sides[1], sides[0])):
+                ra = ir.strip(a_)
+                while ra.get("kind") in ("ImplicitCastExpr", "CXXStaticCastExpr", "CXXFunctionalCastExpr", "CStyleCastExpr", "ParenExpr") and ir.ekids(ra):
+                    ra = ir.strip(ir.ekids(ra)[-1])
+                if ra.get("kind") == "DeclRefExpr" and (ra.get("referencedDecl") or {}).get("name") == lname:
+                    try:
+                        mv = ceval.conv(ceval.ev(b_, ceval.Ctx(d)), "unsigned long")
+                    except (ceval.Unknown, ceval.UB):
+                        continue
+                    if mv > 0xFF and w is not None:
+                        want_m = 0xFFFFFFFFFFFFFFFF ^ (w - 1)
+                        (rep.holds if mv == want_m else rep.violates)(R, "murmur_hash<8>", "block mask", where=d.where(n_),
+                            detail="length & %#x" % mv if mv == want_m else "the length is masked with %#x, not %#x (the mask is computed in a narrower type and zero-extended): for keys of 4 GiB or more the "
+                                   "number of full blocks is taken from the low 32 bits of the length" % (mv, want_m))
     # any block load outside the guarded loop reads past buffer + length for short inputs
     stray = [ln for ln, src, size in _loads_in(d, ir.body(fn)) if not any(ln is x or any(ln is y for y in ir.walk_expr(x)) for _, x in loops)]
     if stray:
